@@ -1,2 +1,167 @@
-(* C05_Props.v - placeholder, being written *)
+(* C05_Props.v — the property theorems of C05 and nothing else.
+   A schedule is an ARBITRARY list of actions (one action = one semaphore operation, process
+   start / exit, message to or from a peer; a disabled action is a no-op), the library, the
+   selection predicate, the instance order and MaxServers are arbitrary. *)
 From V Require Import C05_Spec C05_Proofs.
+Open Scope N_scope.
+
+(* ---- which permutations are issued -------------------------------------------------- *)
+(* Grouping by server instance, gRPC filter, run/skip filter and the dropping of empty groups
+   neither lose nor duplicate anything: the batches of a run are, as a multiset, exactly the
+   selected permutations (gRPC variants only where supported, under their marked names) — for
+   every order in which the instances are visited. *)
+Theorem partition : forall lib sel order clients servers,
+  NoDup order -> (forall tc, In tc lib -> In (inst_of tc) order) ->
+  Permutation (concat (map b_cases (plan lib sel order clients servers)))
+              (selected lib sel clients servers).
+Proof. exact partition_proof. Qed.
+Print Assumptions partition.
+
+(* the two orders run() uses (map order = any duplicate-free enumeration; sorted with -v) qualify *)
+Theorem instances_ok : forall lib,
+  NoDup (instances lib) /\ forall tc, In tc lib -> In (inst_of tc) (instances lib).
+Proof. exact instances_ok_proof. Qed.
+Print Assumptions instances_ok.
+Theorem sorted_ok : forall lib,
+  NoDup (sort_insts (instances lib)) /\ forall tc, In tc lib -> In (inst_of tc) (sort_insts (instances lib)).
+Proof. exact sorted_ok_proof. Qed.
+Print Assumptions sorted_ok.
+
+(* every batch is non-empty and holds only permutations of the instance its server is started for *)
+Theorem matching_server : forall lib sel order clients servers b,
+  In b (plan lib sel order clients servers) ->
+  b.(b_cases) <> [] /\ forall tc, In tc b.(b_cases) -> inst_of tc = b.(b_inst).
+Proof. exact matching_server_proof. Qed.
+Print Assumptions matching_server.
+
+(* a gRPC variant's name is the original with the marker inserted before the simple name *)
+Theorem marked_name : forall c s tc prefix,
+  tc.(tc_name) = prefix ++ tc.(tc_simple) ->
+  (rename c s tc).(tc_name) = prefix ++ marker c s ++ 47 :: tc.(tc_simple).
+Proof. exact marked_name_proof. Qed.
+Print Assumptions marked_name.
+
+(* ---- the request handed to the client ------------------------------------------------ *)
+Theorem request_filled : forall a g sref tc,
+  let r := complete a g sref tc in
+  let nh := (bs "x-test-case-name", [tc.(tc_name)]) in
+  r.(r_name) = tc.(tc_name) /\
+  r.(r_port) = a.(a_port) /\ r.(r_cert) = a.(a_cert) /\
+  r.(r_host) = (if is_empty a.(a_host) then default_host else a.(a_host)) /\ r.(r_host) <> [] /\
+  r.(r_creds) = g.(i_certs) /\
+  exists extra,
+    r.(r_headers) = tc.(tc_headers) ++ nh :: extra /\
+    r.(r_raw) = option_map (fun hs => hs ++ nh :: extra) tc.(tc_raw) /\
+    (sref = false -> extra = []) /\
+    (forall h, In h extra -> has_prefix (bs "x-expect-") (fst h) = true).
+Proof. exact request_filled_proof. Qed.
+Print Assumptions request_filled.
+
+(* ---- all schedules -------------------------------------------------------------------- *)
+(* every send happens while the server spawned for that very batch is serving, the permutation
+   is one of the batch, and the request carries that server's address and certificate *)
+Theorem send_while_serving : forall max p acts, sends_ok p (run_sched max p acts).(trace).
+Proof. exact send_while_serving_proof. Qed.
+Print Assumptions send_while_serving.
+
+(* never more than MaxServers server processes, at any moment of any schedule *)
+Theorem bounded : forall max p acts, always_bounded max (run_sched max p acts).(trace).
+Proof. exact bounded_proof. Qed.
+Print Assumptions bounded.
+Theorem max_alive_bounded : forall max p acts, (max_alive (run_sched max p acts).(trace) <= max)%nat.
+Proof. exact max_alive_proof. Qed.
+Print Assumptions max_alive_bounded.
+
+(* at any moment, what was sent for a batch is a prefix of its permutations in order: nothing
+   twice, nothing foreign; and nothing is sent for a batch recorded as setup failure *)
+Theorem never_twice : forall max p acts k b,
+  let s := run_sched max p acts in
+  nth_error p k = Some b ->
+  (exists rest, sent_cases s.(trace) k ++ rest = b.(b_cases)) /\
+  (failed_in s.(trace) k = true -> sent_cases s.(trace) k = []).
+Proof. exact never_twice_proof. Qed.
+Print Assumptions never_twice.
+
+(* when the run is over, every batch was either sent completely, each permutation once, or
+   recorded as a setup failure with nothing sent *)
+Theorem exactly_once : forall max p acts k b,
+  let s := run_sched max p acts in
+  terminal s = true -> nth_error p k = Some b ->
+  (sent_cases s.(trace) k = b.(b_cases) /\ failed_in s.(trace) k = false) \/
+  (sent_cases s.(trace) k = [] /\ failed_in s.(trace) k = true).
+Proof. exact exactly_once_proof. Qed.
+Print Assumptions exactly_once.
+
+(* ... and every server process that was started has exited *)
+Theorem all_stopped : forall max p acts,
+  let s := run_sched max p acts in terminal s = true -> alive_list s.(trace) = [].
+Proof. exact all_stopped_proof. Qed.
+Print Assumptions all_stopped.
+
+(* termination: every enabled action lowers the measure; a schedule of any length contains at
+   most `measure init` enabled actions; a state that is not final has an enabled action (so,
+   peers being fair, the run reaches the final state) *)
+Theorem measure_step : forall max p acts a s',
+  step_opt max (run_sched max p acts) a = Some s' -> (measure s' < measure (run_sched max p acts))%nat.
+Proof. exact measure_step_proof. Qed.
+Print Assumptions measure_step.
+Theorem schedule_bound : forall max p acts,
+  (effective max (init_state p) acts + measure (run_sched max p acts) <= measure (init_state p))%nat.
+Proof. exact schedule_bound_proof. Qed.
+Print Assumptions schedule_bound.
+Theorem progress : forall max p acts,
+  (1 <= max)%nat -> let s := run_sched max p acts in
+  terminal s = false -> exists a s', step_opt max s a = Some s'.
+Proof. exact progress_proof. Qed.
+Print Assumptions progress.
+
+(* the scheduler of the correspondence runs (settle / play / drain) follows a schedule, so all
+   of the above applies to what the Go code is compared with *)
+Theorem scripted_is_schedule : forall max missing ds p script,
+  let '(s, acts, _) := scripted max missing ds p script in s = run_sched max p acts.
+Proof. exact scripted_is_schedule_proof. Qed.
+Print Assumptions scripted_is_schedule.
+
+(* ---- non-vacuity ---------------------------------------------------------------------- *)
+Definition tc1 := mkTC (bs "S/TLS:false/a") (bs "a") 2 2 1 1 false false [] None false false.
+Definition tc2 := mkTC (bs "S/TLS:false/b") (bs "b") 2 2 1 1 false false [] None false false.
+Definition tc3 := mkTC (bs "T/c") (bs "c") 1 1 1 1 true true [] None false false.
+Definition lib3 := [tc1; tc3; tc2].
+Definition all (_ : bytes) := true.
+
+(* two instances, the gRPC one is issued to both clients, the Connect+TLS one only to the first *)
+Example ex_plan :
+  map (fun b => (b.(b_phase), map tc_name b.(b_cases)))
+      (plan lib3 all (instances lib3) (peers_of true) (peers_of false))
+  = [ (0%nat, [bs "S/TLS:false/a"; bs "S/TLS:false/b"]); (0%nat, [bs "T/c"]);
+      (1%nat, [bs "S/TLS:false/(grpc client impl)/a"; bs "S/TLS:false/(grpc client impl)/b"]) ].
+Proof. vm_compute. reflexivity. Qed.
+
+Definition p2 := plan lib3 all (instances lib3) (peers_of false) (peers_of false).
+Definition a1 := mkAddr [] 4711 [].
+Definition a2 := mkAddr (bs "h") 4712 (bs "PEM").
+
+(* with one permit the second server starts only after the first was released; the run ends *)
+Example ex_serial :
+  let s := run_sched 1 p2 [Acquire; Acquire; Spawn 0; Spawn 1; Ready 0 a1; Send 0; Send 0; Stop 0;
+                           Answer 0 (bs "S/TLS:false/a"); Answer 0 (bs "S/TLS:false/b"); Stop 0; Release 0;
+                           Acquire; Spawn 1; Ready 1 a2; Send 1; Answer 1 (bs "T/c"); Stop 1; Release 1] in
+  terminal s = true /\ max_alive s.(trace) = 1%nat /\ effective 1 (init_state p2)
+    [Acquire; Acquire; Spawn 0; Spawn 1] = 2%nat.
+Proof. vm_compute. auto. Qed.
+
+(* a server that dies is a setup failure for its whole batch; TLS without a certificate too *)
+Example ex_failures :
+  let s := run_sched 2 p2 [Acquire; Acquire; Spawn 0; Spawn 1; Die 0; Ready 1 (mkAddr [] 1 []); Release 0; Release 1] in
+  terminal s = true /\ failed_in s.(trace) 0 = true /\ failed_in s.(trace) 1 = true /\ sent_cases s.(trace) 1 = [].
+Proof. vm_compute. auto. Qed.
+
+(* not final => something is enabled (here: nothing was done yet) *)
+Example ex_progress : terminal (run_sched 1 p2 []) = false /\ step_opt 1 (run_sched 1 p2 []) Acquire <> None.
+Proof. vm_compute. split; [reflexivity|discriminate]. Qed.
+
+Example ex_complete :
+  (complete a1 (mkInst 1 1 true true) true tc3).(r_host) = bs "127.0.0.1" /\
+  length (complete a1 (mkInst 1 1 true true) true tc3).(r_headers) = 8%nat /\
+  length (complete a2 (mkInst 2 2 false false) false tc1).(r_headers) = 1%nat.
+Proof. vm_compute. auto. Qed.
